@@ -25,6 +25,8 @@ type PropConfig struct {
 	Structural []string `json:"structural"`
 	MathLemmas []string `json:"math_lemmas"`
 	EntryPoints []string `json:"entry_points"`
+	// Composes: the property is a composition; its check also runs every target of these properties
+	Composes []string `json:"composes"`
 }
 
 type Target struct {
@@ -100,6 +102,28 @@ func cmdCheck(args []string) int {
 		fmt.Fprintf(os.Stderr, "govc: unknown property %q\n", *prop)
 		return 2
 	}
+	// a composed property also runs the targets of the properties it is made of
+	propSet := []string{*prop}
+	for _, c := range pc.Composes {
+		cp := pcs[c]
+		if cp == nil {
+			fmt.Fprintf(os.Stderr, "govc: props.json: %s composes unknown %q\n", *prop, c)
+			return 2
+		}
+		propSet = append(propSet, c)
+		merged := *pc
+		for _, pat := range cp.Patterns {
+			if !contains(merged.Patterns, pat) {
+				merged.Patterns = append(append([]string{}, merged.Patterns...), pat)
+			}
+		}
+		for _, ml := range cp.MathLemmas {
+			if !contains(merged.MathLemmas, ml) {
+				merged.MathLemmas = append(append([]string{}, merged.MathLemmas...), ml)
+			}
+		}
+		pc = &merged
+	}
 	scratch := os.Getenv("VERIF_SCRATCH")
 	if scratch == "" {
 		scratch = fmt.Sprintf("/var/tmp/govc.%d", os.Getpid())
@@ -121,13 +145,13 @@ func cmdCheck(args []string) int {
 	// targets
 	var targets []Target
 	for _, sp := range p.specList {
-		if sp.SSAName == "" || !contains(sp.Props, *prop) || sp.Trusted {
+		if sp.SSAName == "" || !containsAny(sp.Props, propSet) || sp.Trusted {
 			continue
 		}
 		targets = append(targets, Target{Name: sp.Key(), Spec: sp})
 	}
 	for k, l := range p.lemmas {
-		if contains(l.Props, *prop) && l.Fn != nil {
+		if containsAny(l.Props, propSet) && l.Fn != nil {
 			targets = append(targets, Target{Name: k, Lemma: l})
 		}
 	}
@@ -225,7 +249,7 @@ func cmdCheck(args []string) int {
 	// bounded stand-ins (native, labelled bounded)
 	var boundedNotes []string
 	if *only == "" {
-		if bf := findBounded(p, *prop); len(bf) > 0 {
+		if bf := findBoundedAll(p, propSet); len(bf) > 0 {
 			tr := &TargetResult{Target: "bounded-stand-ins", Exec: NewExec(p), Obls: runBounded(p, bf, *tier, seed)}
 			for _, f := range bf {
 				boundedNotes = append(boundedNotes, f.Pkg+"."+f.Name+": "+f.Bound)
@@ -446,6 +470,9 @@ func runTarget(p *Loaded, t Target, selRet int) (res *TargetResult) {
 		for k, v := range t.Lemma.Shape {
 			x.shapeLen[strings.TrimLeft(k, "*")] = v
 		}
+		if t.Lemma.Driver {
+			x.driver, x.assumePre, x.noSafety = true, true, true
+		}
 	}
 	args := make([]Value, len(h.Params))
 	for i, prm := range h.Params {
@@ -464,7 +491,7 @@ func runTarget(p *Loaded, t Target, selRet int) (res *TargetResult) {
 			res.Err = "contract harness did not reach the call"
 		}
 	}
-	if x.driver && selRet == 0 && x.st != nil && res.Err == "" {
+	if x.driver && t.Spec != nil && selRet == 0 && x.st != nil && res.Err == "" {
 		// normal return of the procedure: no fault may have happened on the way
 		x.failStop("return-after-fault", token.NoPos)
 		x.curFunc = append(x.curFunc, t.Name)
@@ -897,4 +924,27 @@ func writeReplayFull(dir, prop, name string, o *Obligation, r *TargetResult, msg
 	out, _ := json.MarshalIndent(rec, "", " ")
 	os.WriteFile(fn, out, 0o644)
 	return fn
+}
+
+func containsAny(have []string, want []string) bool {
+	for _, w := range want {
+		if contains(have, w) {
+			return true
+		}
+	}
+	return false
+}
+
+func findBoundedAll(p *Loaded, props []string) []boundedFn {
+	var out []boundedFn
+	seen := map[string]bool{}
+	for _, pr := range props {
+		for _, f := range findBounded(p, pr) {
+			if !seen[f.Pkg+"."+f.Name] {
+				seen[f.Pkg+"."+f.Name] = true
+				out = append(out, f)
+			}
+		}
+	}
+	return out
 }
